@@ -578,15 +578,15 @@ BOUNDS = {
     # (thorough caps are set so that one property's thorough run stays near half an hour on 16 cores: 12000-15000 states per
     # configuration took several hours once the matrices had grown to 300-1100 configurations; C06 at 8000 states and DFS 4
     # was still running after 70 minutes)
-    'C01': ((6, 900), (8, 3500), 3),
-    'C02': ((6, 1000), (8, 5000), 3),
-    'C05': ((6, 1200), (8, 5000), 3),
-    'C06': ((6, 500), (8, 3500), 3),
-    'C07': ((6, 900), (8, 5000), 3),
-    'C15': ((5, 1200), (7, 5000), 3),
-    'C16': ((5, 1200), (7, 5000), 3),
-    'C18': ((5, 1000), (7, 5000), 3),
-    'C20': ((5, 450), (6, 4000), 0),
+    'C01': ((6, 900), (8, 2500), 3),
+    'C02': ((6, 1000), (8, 3000), 3),
+    'C05': ((6, 1200), (8, 3000), 3),
+    'C06': ((6, 500), (8, 3000), 3),
+    'C07': ((6, 900), (8, 3000), 3),
+    'C15': ((5, 1200), (7, 3000), 3),
+    'C16': ((5, 1200), (7, 3000), 3),
+    'C18': ((5, 1000), (7, 3000), 3),
+    'C20': ((5, 450), (6, 3000), 0),
 }
 
 RULES = {
